@@ -1,6 +1,7 @@
 import RoutinatorModel.Drv.Main
 import RoutinatorModel.Drv.Once
 import RoutinatorModel.Drv.Registry
+import RoutinatorModel.Drv.Listener
 open RoutinatorModel.Drv
 
 def dispatch (comp arg : String) : String :=
@@ -9,6 +10,7 @@ def dispatch (comp arg : String) : String :=
   | "c37n" => runC37n arg
   | "c36" => runC36 arg
   | "c36n" => runC36n arg
+  | "c19" => runC19 arg
   | _ => "bad-component"
 
 def main : IO Unit := mainWith dispatch
